@@ -1118,6 +1118,13 @@ Proof.
   - inversion H; subst. rewrite Z.eqb_refl. simpl. apply IH; auto.
 Qed.
 
+Lemma occ_inv_limit (cell id : Type) (cell_eqb : cell -> cell -> bool) (id_eqb : id -> id -> bool)
+      (cells : list cell) (units : list id) (cellof : id -> cell) (s : state cell id) :
+  occ_inv cell_eqb id_eqb cells s units cellof ->
+  (forall c k, limit s = Some k -> length (occ_of cell_eqb s c) <= k)
+  /\ (forall c, aget cell_eqb (surplus s) c <> Some []).
+Proof. intros [[K ND V NE L] _ _ _]. split; auto. Qed.
+
 (** ** A concrete, non-trivial instance (used by the non-vacuity examples of Props/C10.v and Props/C11.v):
     5 cells on a ring, one neighbour layer, occupant limit 1, six units, three of them in the same cell. *)
 Module OccExample.
@@ -1165,12 +1172,14 @@ Module OccExample.
 
   Lemma s1_inv : occ_inv list_Z_eqb list_Z_eqb (cs_cells cs5) s1 units cellof.
   Proof.
+    assert (H1 : true = true <-> In [0] units) by (split; auto; intros _; vm_compute; auto).
+    assert (H2 : true = true -> [0] = cellof [0]) by (intros _; reflexivity).
+    assert (H3 : forall u, In u units -> is_active list_Z_eqb s0 u = false -> cellof u = cellof u) by auto.
+    assert (H4 : forall a, active_id s0 = Some a -> a <> [0] -> cellof a = cellof a) by auto.
     destruct (update_inv _ _ list_Z_eqb list_Z_eqb list_Z_eqb_spec list_Z_eqb_spec (cs_cells cs5)
-                (ok_cells_nodup _ _ cs5_ok) units cellof cellof units_nodup cellof_valid s0 [0] true [0] s0_inv)
-      as (s & E & I); auto.
-    - split; auto. intros _. vm_compute. auto.
-    - intros a H. vm_compute in H. discriminate.
-    - unfold s1. rewrite E. exact I.
+                (ok_cells_nodup _ _ cs5_ok) units cellof cellof units_nodup cellof_valid s0 [0] true [0] s0_inv
+                H1 H2 H3 H4) as (s & E & I).
+    unfold s1. rewrite E. exact I.
   Qed.
 
   Lemma s1_active : active_id s1 = Some [0] /\ active_cell s1 = Some [0].
